@@ -219,7 +219,10 @@ class Interp:
                 self.run(s.child('init'))
             body = s.child('body')
             at_least_once = False
-            if k == 'WhileStmt':
+            inc = _strip_casts(s.child('inc')) if k == 'ForStmt' and s.child('inc') is not None else None
+            chunked_for = inc is not None and inc.k == 'CompoundAssignOperator' and inc.op == '+=' and (_strip_casts(inc.child('rhs')).cv or 0) > 1
+            if k == 'WhileStmt' or chunked_for:
+                # chunk loops `i0 = 0; while (i0 < total)` / `for (i0 = 0; i0 < total; i0 += CHUNK)`: total >= 1 (stated assumption)
                 c = _strip_casts(s.child('cond'))
                 if c.k == 'BinaryOperator' and c.op == '<' and self.val(c.child('lhs')) == 0:
                     at_least_once = True
